@@ -29,7 +29,6 @@ def absVote (v : Vote) : Option LatestVote :=
 /-- the refinement relation -/
 structure Ref (fc : FC) (a : Abs) : Prop where
   spe : a.spe = fc.spe
-  spe_pos : 0 < fc.spe
   nodes : a.nodes = absNodes fc.pa.nodes
   votes : a.votes = fc.votes.map absVote
   balances : a.balances = fc.balances
